@@ -490,6 +490,9 @@ func (e *Enc) assertsAt(fr *frame, b *ssa.BasicBlock, idx int, in ssa.Instructio
 
 func (e *Enc) encodeBlock(fr *frame, b *ssa.BasicBlock, st *bstate) {
 	for idx, in := range b.Instrs {
+		if !fr.inlined {
+			e.curInstr = in
+		}
 		switch in.(type) {
 		case *ssa.Return, *ssa.Call, *ssa.Store, *ssa.MapUpdate, *ssa.BinOp:
 			e.assertsAt(fr, b, idx, in, st)
@@ -719,7 +722,14 @@ func (e *Enc) encodeInstr(fr *frame, b *ssa.BasicBlock, idx int, in ssa.Instruct
 		e.assert(sEq(nl, app("store", ol, r, "0")))
 		e.setVal(x, Val{T: r})
 	case *ssa.MakeChan:
-		e.setVal(x, Val{T: e.newRef(st, "chan")})
+		r := e.newRef(st, "chan")
+		if g := e.P.reg.Ghosts["chanClosed"]; g != nil {
+			c := e.ghostComp(g)
+			old := e.heapVar(st, c)
+			nv := e.newHeapVersion(st, c)
+			e.assert(sEq(nv, app("store", old, r, "false")))
+		}
+		e.setVal(x, Val{T: r})
 	case *ssa.MakeClosure:
 		r := e.newRef(st, "closure")
 		e.setVal(x, Val{T: r})
